@@ -48,6 +48,7 @@ def run(facts, rep, tier):
     rep.assumptions += ["rustc nightly MIR and is_const_fn describe the program the stable toolchain builds"]
     sharedkernel(F, rep)
     rawarith(F, rep)
+    twopass(F, rep)
     cycle(F, rep)
     samelang(F, rep)
     operands_evaluated(F, rep)
@@ -175,6 +176,56 @@ def rawarith(F, rep):
                             "follows the divisor — e.g. a const `-7 // 2` would be -3 at compile time and -4 at run "
                             "time" % (what, fn_short(p)), file=f.file, line=ln, fn=p))
     rep.floor("RAWARITH", "functions of the const evaluator", n, 8)
+
+
+def twopass(F, rep):
+    """TWOPASS — `&'static str` consts are folded by resolve_static_str_const(name, table, ..) against a table of all
+    const initializers. The table must be COMPLETE before the first resolution: no insertion into that table may be
+    reachable from a resolve call. (Resolving while still collecting leaves every forward reference unresolved; the
+    dependent const is then emitted as a run-time str_concat call inside a const initializer.)"""
+    from engines import derived_locals
+    f = F.one_fn("IrEmitter<'a>>::emit_program") or F.one_fn("emit::program::<impl incan::backend::ir::emit::IrEmitter<'a>>::emit_program")
+    if f is None:
+        cands = [g for p, g in F.fns.items() if p.endswith("::emit_program") and "IrEmitter" in p]
+        f = cands[0] if cands else None
+    if not rep.anchor("TWOPASS", "IrEmitter::emit_program", f):
+        return
+    res = [(bi, t) for bi, t in f.calls() if (callee_name(t) or "").endswith("resolve_static_str_const")]
+    if not rep.anchor("TWOPASS", "resolve_static_str_const call in emit_program", res):
+        return
+
+    def root(pl):
+        cur = pl["l"]
+        for _ in range(8):
+            if cur in f.names:
+                return cur
+            d = f.single_def(cur)
+            if d is None or d[2] != "assign":
+                return cur
+            rv = d[3]
+            if rv["r"] in ("ref", "cfd"):
+                cur = rv["p"]["l"]
+            elif rv["r"] in ("use", "cast") and op_place(rv["o"]) is not None:
+                cur = op_place(rv["o"])["l"]
+            else:
+                return cur
+        return cur
+
+    tables = {root(op_place(t["args"][1])) for bi, t in res if len(t["args"]) > 1 and op_place(t["args"][1])}
+    ins = [(bi, t) for bi, t in f.calls() if (callee_generic(t) or "").endswith("::insert") and t["args"] and
+           op_place(t["args"][0]) is not None and root(op_place(t["args"][0])) in tables]
+    rep.floor("TWOPASS", "insertions into the table resolve_static_str_const reads", len(ins), 1)
+    late = sorted({t2.get("ln") for (rb, _) in res for (ib, t2) in ins if ib in f.reachable(rb)})
+    ok = not late
+    rep.oblige("TWOPASS", "emit_program:collect-then-resolve", ok,
+               sample={"rule": "TWOPASS", "resolve_calls": len(res), "table_inserts": len(ins),
+                       "inserts_reachable_after_a_resolve": late})
+    if not ok:
+        rep.add(Finding("TWOPASS", "TWOPASS|emit_program|resolve-while-collecting",
+                        "emit_program resolves `&'static str` consts while the table of const initializers is still "
+                        "being filled (an insertion at line %s is reachable after a resolve call): a const that refers "
+                        "to one declared later is not folded, and its dependents are emitted as run-time str_concat "
+                        "calls inside a const initializer" % late[0], file=f.file, line=res[0][1].get("ln"), fn=f.path))
 
 
 def fn_short(p):
